@@ -11,7 +11,7 @@ RES = os.path.join(HERE, "seeded", "RESULTS.json")
 
 
 def parse(path):
-    m = re.search(r"try_(C\d\d-\d)_(C\d\d)\.log$", path)
+    m = re.search(r"try_(C\d\d-\d+)_(C\d\d)\.log$", path)
     if not m:
         return None
     sid, chk = m.groups()
